@@ -29,6 +29,13 @@ def classify_tagged(msg, metas):
         return None
     if c10_lib.rolling_defect(idx, metas):
         return "cascade-rolling-buffer-stale-row:pad_top>kdil-stride"
+    meta = metas[idx]
+    # the hardware reads more columns than Vela's own IFM box holds (kernel wider than the box, no right padding
+    # programmed): the extra columns come from an unprogrammed tile. Seen for the stride>3 convolution lowering and for
+    # the softmax lowering after a fused slice; whether the values matter numerically is C01's subject.
+    if m.group(2) == "IFM" and meta.get("hw_ifm_w") is not None and meta["hw_ifm_w"] > meta.get("box_ifm_w", 1 << 30) \
+            and meta.get("ifm_width0") == meta.get("box_ifm_w"):
+        return "ifm-box-narrower-than-hardware-read-width"
     return None
 
 
